@@ -96,11 +96,32 @@ class Collector:
         return r
 
 
+def guard(run_case):
+    """An exception that escapes a case function is a harness error - unless it was raised inside the code under test
+    (innermost frame in the quansino package): the same generated input runs cleanly on a correct tree, so the change
+    that makes quansino raise on it is reported as a violation, with the input kept for replay."""
+    import traceback as _tb
+
+    def safe(case):
+        try:
+            return run_case(case)
+        except Exception as exc:
+            frames = _tb.extract_tb(exc.__traceback__)
+            if frames and "/quansino/" in frames[-1].filename.replace("\\", "/"):
+                where = f"{frames[-1].filename.split('/quansino/')[-1]}:{frames[-1].lineno}"
+                return {"labels": ["raised-inside-quansino"], "nontrivial": True,
+                        "violation": {"kind": f"uncaught:{type(exc).__name__}", "detail": f"{type(exc).__name__} raised at quansino/{where}: {str(exc)[:300]}"}}
+            raise
+
+    return safe
+
+
 def search(strategy, run_case, n, seed, part, time_budget=None, shrink_budget=250, max_kinds=2, max_samples=6, shrink=True, skip_zero=False):
     """skip_zero: Hypothesis always starts with the all-simplest example; parts that run only a handful of
     expensive cases (long chains) skip it so that every executed case has randomly drawn parameters."""
     col = Collector(part, max_samples=max_samples, time_budget=time_budget)
     state = {"first": True}
+    run_case = guard(run_case)
 
     @hypothesis.seed(seed)
     @_settings(n + (1 if skip_zero else 0), [Phase.generate])
